@@ -273,6 +273,9 @@ Fixpoint lam_ids (e : expr) : list Z :=
 
 Definition keyb (k1 k2 : key) : bool := (fst k1 =? fst k2) && (snd k1 =? snd k2).
 
+Fixpoint nodupb (l : list Z) : bool :=
+  match l with [] => true | x :: r => negb (memZ x r) && nodupb r end.
+
 (** every lambda's sv lists all of its parameters that are assigned anywhere inside it (lambda-set-vars),
     and no lambda nested inside it reuses its identity *)
 Fixpoint wf (e : expr) : bool :=
@@ -282,7 +285,7 @@ Fixpoint wf (e : expr) : bool :=
   | Seq es => forallb wf es
   | Lam id ps _ sv body =>
       wf body && forallb (fun k => negb (snd k =? id) || memZ (fst k) sv) (assigned body)
-      && negb (memZ id (lam_ids body)) && negb (id =? 0)
+      && nodupb ps && negb (memZ id (lam_ids body)) && negb (id =? 0)
   | App f args => wf f && forallb wf args
   | _ => true
   end.
